@@ -64,6 +64,14 @@ pub fn replay(cases: &str, verdicts: &str) {
             }
             v.check(ok_cov, "acovf", oc, &c, worst.clone());
             v.check(ok_even, "acovf even-in-lag", oc, &c, json!(null));
+            // lags at and beyond the length of the series: the defining sum is empty
+            let mut ok_far = true; let mut worst_far = json!(null);
+            for k in [n as i32, n as i32 + 3, 50, -(n as i32), -(n as i32) - 1, -50] {
+                let g = guard(|| acovf(&xs, k));
+                if g != Some(0.0) { ok_far = false; worst_far = json!({"k": k, "acovf": g}); }
+                if nonconst { let ga = guard(|| acf(&xs, k)); if ga != Some(0.0) { ok_far = false; worst_far = json!({"k": k, "acf": ga}); } }
+            }
+            v.check(ok_far, "acovf / acf lag >= length", oc, &c, worst_far);
             if nonconst { v.check(ok_acf, "acf", oc, &c, worst.clone()); }
             // AR fit: order 1 and 2, fresh object and re-fitted object
             let other: Vec<f64> = (0..n + 3).map(|i| ((i * i) % 5) as f64 - 1.0 + off).collect();
